@@ -2,6 +2,7 @@ package c13
 
 import (
 	"bytes"
+	"crypto/sha256"
 	"encoding/hex"
 	"fmt"
 	"math/big"
@@ -35,7 +36,10 @@ func TestMain(m *testing.M) {
 	stats.SetRule("one case = one DKG instance (n, member ids, miner seeds, group hash, message, history of 0-2 rounds of partial piece delivery followed by a generated set of members " +
 		"re-creating their group-creation context from the same seed and dealing again) with ALL subsets of size >= k combined in 3 arrival orders " +
 		"through model.GroupSignGenerator, round1's groupSignGenerator and groupsig.RecoverGroupSignature (supersets 4 runs), plus all (k-1)-subsets; " +
-		"non-trivial = ids are not 1..n and n >= 6; distinct by (n, ids, seeds, group hash, message)")
+		"non-trivial = ids are not 1..n and n >= 6; distinct by (n, ids, seeds, group hash, message). " +
+		"TestMessageSweep: one case = one small-group instance (3 smallest sizes) reused for 48 generated messages (random 0-200 B, 32-B hashes, beacon chain = previous group signature, " +
+		"repeated bytes, counters, sparse), per message: all shares verify, two different threshold subsets in generated orders through both collectors agree byte-for-byte with " +
+		"Sign(sum of secrets, msg) and verify; non-trivial = ids not 1..n and a non-empty message; distinct by (instance, hash of the message batch)")
 	stats.Assume("member ids are non-zero and pairwise distinct modulo the group order r (ids are 256-bit hashes of public keys; a collision mod r or id = 0 mod r is " +
 		"cryptographically infeasible); ids >= r (about 44% of uniformly distributed 256-bit ids) are generated")
 	stats.Assume("a dealer's secret is what its DKG context reports as its seed secret key (constant term); the expected group signature is " +
@@ -200,6 +204,9 @@ type instance struct {
 	restartClass string // restart_rounds:N
 	partial      bool   // a restarting dealer's pre-restart piece is held by a surviving receiver
 	dups         int    // duplicate pieces offered to receivers
+
+	sumKey    groupsig.Seckey   // sum of the dealer secrets mod r (harness-side)
+	pubShares []groupsig.Pubkey // GeneratePubkey(member's share key)
 }
 
 func short(b []byte) string {
@@ -376,6 +383,7 @@ func buildInstance(t *rapid.T, n int) *instance {
 
 	// --- expected signature, independent of Lagrange recovery ---
 	sumKey := groupsig.NewSeckeyFromBigInt(new(big.Int).Set(sum))
+	in.sumKey = *sumKey
 	exp := groupsig.Sign(*sumKey, in.msg)
 	in.want = exp.Serialize()
 	one := groupsig.NewSeckeyFromBigInt(big.NewInt(1))
@@ -397,7 +405,8 @@ func buildInstance(t *rapid.T, n int) *instance {
 		}
 		sh := groupsig.Sign(in.signSK[j], in.msg)
 		in.shares = append(in.shares, sh)
-		if !groupsig.VerifySig(*groupsig.GeneratePubkey(in.signSK[j]), in.msg, sh) {
+		in.pubShares = append(in.pubShares, *groupsig.GeneratePubkey(in.signSK[j]))
+		if !groupsig.VerifySig(in.pubShares[j], in.msg, sh) {
 			t.Fatalf("member %d: signature share does not verify under GeneratePubkey(share key)", j)
 		}
 	}
@@ -646,4 +655,171 @@ func TestSizeOther(t *testing.T) {
 		}
 		runSize(t, n, 1, 4)
 	}
+}
+
+// ---------- message sweep ----------
+//
+// The property quantifies over every message, but the per-size tests sign one message per DKG
+// instance. Here a small-group instance (same generator, same DKG driver incl. restart histories)
+// is reused for a batch of generated messages; per message: every member's share verifies under
+// its public share, two different threshold subsets in different generated arrival orders through
+// the two production collectors give byte-identical signatures, equal to Sign(sum of dealer
+// secrets, msg), which verifies under the group public key.
+
+var msgKinds = []string{"random", "random", "hash32", "hash32", "beacon_chain", "beacon_chain", "repeated", "counter_be8", "counter_ascii", "prefix_counter", "sparse"}
+
+// genSweepMsg draws one message; prev is the group signature recovered for the previous message
+// of the batch (the random beacon signs the previous beacon value).
+func genSweepMsg(t *rapid.T, i int, prev []byte, ctr *uint64) ([]byte, string) {
+	kind := rapid.SampledFrom(msgKinds).Draw(t, fmt.Sprintf("kind%d", i))
+	lbl := fmt.Sprintf("m%d", i)
+	switch kind {
+	case "random":
+		return rapid.SliceOfN(rapid.Byte(), 0, 200).Draw(t, lbl), kind
+	case "hash32":
+		return rapid.SliceOfN(rapid.Byte(), 32, 32).Draw(t, lbl), kind
+	case "beacon_chain":
+		if len(prev) == 0 {
+			return rapid.SliceOfN(rapid.Byte(), 64, 64).Draw(t, lbl), kind
+		}
+		return append([]byte{}, prev...), kind
+	case "repeated":
+		b := rapid.Byte().Draw(t, lbl+"b")
+		return bytes.Repeat([]byte{b}, rapid.IntRange(1, 200).Draw(t, lbl+"len")), kind
+	case "counter_be8", "counter_ascii", "prefix_counter":
+		*ctr += uint64(rapid.IntRange(1, 3).Draw(t, lbl+"step"))
+		be := make([]byte, 8)
+		for k := 0; k < 8; k++ {
+			be[7-k] = byte(*ctr >> (8 * uint(k)))
+		}
+		if kind == "counter_be8" {
+			return be, kind
+		}
+		if kind == "counter_ascii" {
+			return []byte(fmt.Sprint(*ctr)), kind
+		}
+		return append(rapid.SliceOfN(rapid.Byte(), 1, 32).Draw(t, lbl+"prefix"), be...), kind
+	default: // sparse: zeros with one generated byte set
+		m := make([]byte, rapid.IntRange(1, 200).Draw(t, lbl+"len"))
+		m[rapid.IntRange(0, len(m)-1).Draw(t, lbl+"pos")] = rapid.Byte().Draw(t, lbl+"b")
+		return m, kind
+	}
+}
+
+func (in *instance) sweepMessage(t *rapid.T, i int, msg []byte) []byte {
+	n, k := in.n, in.k
+	desc := func() string {
+		return fmt.Sprintf("message #%d %s (hex %s), n=%d k=%d", i, short(msg), hex.EncodeToString(msg), n, k)
+	}
+	shares := make([]groupsig.Signature, n)
+	for j := 0; j < n; j++ {
+		shares[j] = groupsig.Sign(in.signSK[j], msg)
+		if !groupsig.VerifySig(in.pubShares[j], msg, shares[j]) {
+			t.Fatalf("member %d: signature share does not verify under its public share; %s", j, desc())
+		}
+	}
+	// two different threshold subsets, each in its own arrival order
+	idx := make([]int, n)
+	for j := range idx {
+		idx[j] = j
+	}
+	a1 := rapid.Permutation(idx).Draw(t, fmt.Sprintf("arrA%d", i))[:k]
+	p2 := rapid.Permutation(idx).Draw(t, fmt.Sprintf("arrB%d", i))
+	k2 := k
+	if rapid.IntRange(0, 3).Draw(t, fmt.Sprintf("more%d", i)) == 0 {
+		k2 = rapid.IntRange(k, n).Draw(t, fmt.Sprintf("sizeB%d", i)) // late shares arriving after recovery
+	}
+	a2 := append([]int{}, p2[:k2]...)
+	inA := map[int]bool{}
+	for _, m := range a1 {
+		inA[m] = true
+	}
+	same := k < n
+	for _, m := range a2[:k] {
+		if !inA[m] {
+			same = false
+		}
+	}
+	if same { // the collector uses the first k arrivals: make them a different set
+		for _, m := range p2 {
+			if !inA[m] {
+				a2[k-1] = m
+				break
+			}
+		}
+		a2 = a2[:k]
+	}
+	var cA, cB collector = logical.VerifNewRoundSignGenerator(k), model.NewGroupSignGenerator(k)
+	if i%2 == 1 {
+		cA, cB = cB, cA
+	}
+	for _, m := range a1 {
+		cA.AddWitnessSign(in.ids[m], shares[m])
+	}
+	for _, m := range a2 {
+		cB.AddWitnessSign(in.ids[m], shares[m])
+	}
+	gA, gB := cA.GetGroupSign(), cB.GetGroupSign()
+	sA, sB := gA.Serialize(), gB.Serialize()
+	if !bytes.Equal(sA, sB) {
+		t.Fatalf("subsets %v and %v recover different signatures %s / %s; %s", a1, a2, short(sA), short(sB), desc())
+	}
+	want := groupsig.Sign(in.sumKey, msg)
+	if !bytes.Equal(sA, want.Serialize()) {
+		t.Fatalf("subset %v recovers %s, Sign(sum of dealer secrets, msg) is %s; %s", a1, short(sA), short(want.Serialize()), desc())
+	}
+	if !groupsig.VerifySig(in.gpk, msg, gA) {
+		t.Fatalf("recovered group signature does not verify under the group public key; subset %v; %s", a1, desc())
+	}
+	return sA
+}
+
+// TestMessageSweep: small groups (the three smallest allowed sizes), many messages per instance.
+func TestMessageSweep(t *testing.T) {
+	lo, hi := sizes()
+	batch := 48
+	stats.Check(t, 20, 70, func(t *rapid.T) {
+		top := lo + 2
+		if top > hi {
+			top = hi
+		}
+		n := rapid.IntRange(lo, top).Draw(t, "n")
+		in := buildInstance(t, n)
+		var prev []byte
+		ctr := uint64(rapid.Uint32().Draw(t, "counter_start"))
+		seen := map[string]bool{}
+		nonEmpty := 0
+		all := sha256.New()
+		for i := 0; i < batch; i++ {
+			msg, kind := genSweepMsg(t, i, prev, &ctr)
+			prev = in.sweepMessage(t, i, msg)
+			stats.Class("sweep_msg:" + kind)
+			fmt.Fprintf(all, "%d:", len(msg))
+			all.Write(msg)
+			if !seen[string(msg)] {
+				seen[string(msg)] = true
+				stats.Count("sweep_messages_distinct_within_instance", 1)
+			}
+			if len(msg) > 0 {
+				nonEmpty++
+			}
+			stats.Count("sweep_messages", 1)
+		}
+		key := ""
+		if !isOneToN(in.idVals) && nonEmpty > 0 {
+			var sb strings.Builder
+			fmt.Fprintf(&sb, "sweep|%d|", n)
+			for _, v := range in.idVals {
+				sb.WriteString(v.Text(16) + ",")
+			}
+			for _, x := range in.secrets {
+				sb.WriteString(x.Text(16) + ";")
+			}
+			sb.WriteString(hex.EncodeToString(all.Sum(nil)))
+			key = sb.String()
+		}
+		stats.Case(key, fmt.Sprintf("sweep:n=%02d,k=%d", n, in.k), "sweep:ids:"+in.style, "sweep:"+in.restartClass)
+		stats.Sample(map[string]string{"test": "message sweep", "n": fmt.Sprint(n), "k": fmt.Sprint(in.k), "messages": fmt.Sprint(batch),
+			"distinct": fmt.Sprint(len(seen)), "last_group_sig": short(prev)})
+	})
 }
